@@ -1,37 +1,97 @@
 (* Props/C11.v -- property C11: editing operations keep the document sound.
    Statements only; proofs live in Proofs/EditProofs*.v.  The model is Model/Edit.v:
-   [step O d op] is one public editing call, [run_ops O d ops] a whole program. *)
+   [sstep O s op] is one public editing call on the whole Document ([step O d op] for the operations that only touch the
+   object graph), [srun_ops O s ops] a whole program. *)
 From LV Require Import Base.Bytes Model.Obj Model.DocQ Model.PageTree Model.Traverse Model.Edit
   Spec.RenumberSpec Spec.AbstractDoc Proofs.EditProofs Proofs.EditProofsEx Proofs.EditProofsTrav
-  Proofs.EditProofsDelete Proofs.EditProofsKF Proofs.EditProofsContent Model.EditV0 Model.Renumber.
+  Proofs.EditProofsDelete Proofs.EditProofsKF Proofs.EditProofsContent Model.EditV0 Model.Renumber
+  Proofs.EditProofsBm Proofs.EditProofsOutline.
+From LV Require Model.Outline Spec.OutlineSpec Proofs.OutlineProofs.
 
 (* ------------------------------------------------------------------------------------------ *)
-(* Allocation.  [alloc_ok d]: max_id is at least every object number in use.  [doc_wf d]: the
-   representation invariant of the BTreeMap (keys strictly increasing).  [prog_dom]: every
-   set_object of the program targets an id at or below the cursor at that moment ("replace" an
-   object that exists or was handed out), every renumber_objects is inside the domain proved for
-   C10.  For EVERY program and every interleaving of the operations: *)
+(* Allocation.  The state of a program is the whole Document: [state] = the base document (objects, trailer, max_id)
+   plus the bookmark fields; [sstep O s o] is one public call, [srun_ops O s ops] a whole program over
+   [sop] = SDoc <any operation of Model/Edit.v's op, incl. save> | SAddBookmark .. | SBuildOutline.
+   [alloc_ok d]: max_id is at least every object number in use.  [doc_wf d]: the representation invariant of the
+   BTreeMap (keys strictly increasing).  [sprog_dom]: every set_object of the program targets an id at or below the
+   cursor at that moment ("replace" an object that exists or was handed out), every renumber_objects is inside the
+   domain proved for C10 (bookmark targets included).  No hypothesis on the bookmark table: build_outline is covered
+   for every table.  For EVERY program and every interleaving of the operations: *)
 
 (* (1) the invariant survives the whole program *)
 Theorem C11_alloc_invariant :
-  forall O ops d, doc_wf d -> alloc_ok d -> prog_dom O d ops ->
-    doc_wf (run_ops O d ops) /\ alloc_ok (run_ops O d ops).
-Proof. exact run_ops_inv. Qed.
+  forall O ops s, doc_wf (Outline.base s) -> alloc_ok (Outline.base s) -> sprog_dom O s ops ->
+    doc_wf (Outline.base (srun_ops O s ops)) /\ alloc_ok (Outline.base (srun_ops O s ops)).
+Proof. exact srun_ops_inv. Qed.
 
-(* (2) an id handed out by new_object_id / add_object lies above the cursor, so under the invariant it
-   collides with no existing object -- not even with one of another generation -- and the cursor moves to it *)
+(* (2) an id handed out by new_object_id / add_object (directly or inside any program step that returns an id) lies above
+   the cursor, so under the invariant it collides with no existing object -- not even with one of another generation --
+   and the cursor moves to it *)
 Theorem C11_alloc_fresh :
-  forall O d o d' id, step O d o = (d', OId id) ->
-    (d_max_id d < fst id)%N /\ d_max_id d' = fst id /\ snd id = 0%N /\
-    (alloc_ok d -> forall k, has_obj (d_objects d) k -> fst k <> fst id).
-Proof. exact alloc_fresh. Qed.
+  forall O s o s' id, sstep O s o = (s', OId id) ->
+    (d_max_id (Outline.base s) < fst id)%N /\ d_max_id (Outline.base s') = fst id /\ snd id = 0%N /\
+    (alloc_ok (Outline.base s) -> forall k, has_obj (d_objects (Outline.base s)) k -> fst k <> fst id).
+Proof. exact s_alloc_fresh. Qed.
 
-(* (3) no object number is handed out twice, whatever is interleaved (delete, prune, content and resource
-   edits, ...); renumber_objects compacts the numbers and restarts the cursor, so the statement is per
-   renumbering-free program *)
+(* (2') build_outline, on EVERY bookmark table: it reserves the numbers the cursor passes over ([reserved]); every object it
+   writes carries a reserved number, all of them lie above the old cursor -- so under the invariant no existing object is
+   overwritten or altered --, the returned root is max_id + 1, trailer and bookmark fields are unchanged, and when it
+   returns None or panics (an object number would reach 2^32) nothing at all changed *)
+Theorem C11_frame_build_outline :
+  forall O s s' r, sstep O s SBuildOutline = (s', r) ->
+    let d := Outline.base s in let d' := Outline.base s' in
+    d_trailer d' = d_trailer d /\ (d_max_id d <= d_max_id d')%N /\
+    Outline.bookmark_table s' = Outline.bookmark_table s /\ Outline.bookmarks s' = Outline.bookmarks s /\
+    (forall x, has_obj (d_objects d') x -> ~ has_obj (d_objects d) x -> In x (reserved d d')) /\
+    (forall x, In x (reserved d d') -> (d_max_id d < fst x)%N) /\
+    (alloc_ok d -> forall x, has_obj (d_objects d) x -> lookup (d_objects d') x = lookup (d_objects d) x) /\
+    (forall id, r = ORoot (Some id) -> id = ((d_max_id d + 1)%N, 0%N) /\ In id (reserved d d')) /\
+    (r = ORoot None \/ r = OPanic \/ r = OFuel -> s' = s).
+Proof. exact frame_build_outline. Qed.
+
+(* (2'') composition with C17: at the end of ANY renumbering-free program started on a document without bookmarks, the
+   bookmark table is the forest its add_bookmark calls denote ([forest_of_program], Spec/OutlineSpec.v), and build_outline
+   returns max_id + 1, reserves exactly the 1 + 2|f| consecutive numbers max_id+1 .. max_id+1+2|f|, EVERY one of them names
+   a dictionary afterwards (the cursor ends at the last object written: nothing above it, nothing skipped -- the seeded
+   defect "max_id advanced per top-level bookmark only" contradicts this clause), every other object and the trailer are
+   unchanged *)
+Theorem C11_outline_after_program :
+  forall O d0 ops, s_no_renumber ops ->
+    let s := srun_ops O (Outline.fresh_bdoc d0) ops in
+    let f := forest_of_program ops in
+    let m0 := d_max_id (Outline.base s) in
+    let m' := (m0 + 1 + 2 * N.of_nat (OutlineSpec.fsize f))%N in
+    f <> [] -> (m' < Outline.U32_LIMIT)%N ->
+    exists s',
+      sstep O s SBuildOutline = (s', ORoot (Some ((m0 + 1)%N, 0%N))) /\
+      d_max_id (Outline.base s') = m' /\
+      d_trailer (Outline.base s') = d_trailer (Outline.base s) /\
+      reserved (Outline.base s) (Outline.base s') =
+        map (fun n => (n, 0%N)) (OutlineProofs.nseq (m0 + 1) (S (2 * OutlineSpec.fsize f))) /\
+      (forall id, In id (reserved (Outline.base s) (Outline.base s')) ->
+                  exists dd, lookup (d_objects (Outline.base s')) id = Some (ODict dd)) /\
+      (forall id, ~ In id (reserved (Outline.base s) (Outline.base s')) ->
+                  lookup (d_objects (Outline.base s')) id = lookup (d_objects (Outline.base s)) id).
+Proof. exact outline_after_program. Qed.
+
+(* (3) no object number is handed out (new_object_id, add_object) or reserved (build_outline) twice, whatever is
+   interleaved (delete, prune, content and resource edits, bookmarks, save, ...); renumber_objects compacts the numbers
+   and restarts the cursor, so the statement is per renumbering-free program *)
 Theorem C11_alloc_no_collision :
-  forall O ops d, no_renumber ops -> prog_dom O d ops -> NoDup (map fst (handed_out O d ops)).
-Proof. exact alloc_no_collision. Qed.
+  forall O ops s, s_no_renumber ops -> sprog_dom O s ops -> NoDup (map fst (s_handed_out O s ops)).
+Proof. exact s_alloc_no_collision. Qed.
+
+(* add_bookmark touches nothing but the bookmark fields; save touches no object and never lowers the cursor *)
+Theorem C11_frame_add_bookmark :
+  forall O s t f c p par s' r, sstep O s (SAddBookmark t f c p par) = (s', r) ->
+    Outline.base s' = Outline.base s /\ r = ONum (Outline.max_bookmark_id s + 1)%N /\
+    Outline.max_bookmark_id s' = (Outline.max_bookmark_id s + 1)%N.
+Proof. exact frame_add_bookmark. Qed.
+
+Theorem C11_frame_save :
+  forall stream d, let d' := fst (save_effect stream d) in
+    d_objects d' = d_objects d /\ (d_max_id d <= d_max_id d')%N.
+Proof. exact frame_save. Qed.
 
 (* ------------------------------------------------------------------------------------------ *)
 (* Pruning removes exactly the objects that are not reachable from the trailer ([reach] is the
@@ -167,9 +227,23 @@ Theorem C11_content_example_partial :
 Proof. exact content_ok_example. Qed.
 
 (* ------------------------------------------------------------------------------------------ *)
-(* non-vacuity: a concrete document with a page tree and a program mixing allocation, replacement,
-   deletion and pruning meets the hypotheses; three ids are handed out, all different *)
+(* non-vacuity: a concrete document with a page tree and a program that adds a nested bookmark forest (1 > 2 > 3, and 4),
+   allocates, builds the outline, allocates again, saves with a cross-reference stream and allocates once more meets the
+   hypotheses of (1), (2'') and (3); twelve numbers are taken, all different (19 is the cross-reference stream's) *)
 Theorem C11_example :
+  doc_wf (Outline.base (Outline.fresh_bdoc ex_doc)) /\ alloc_ok (Outline.base (Outline.fresh_bdoc ex_doc)) /\
+  sprog_dom O0 (Outline.fresh_bdoc ex_doc) ex_sops /\ s_no_renumber ex_sops /\
+  s_handed_out O0 (Outline.fresh_bdoc ex_doc) ex_sops =
+    [(8, 0); (9, 0); (10, 0); (11, 0); (12, 0); (13, 0); (14, 0); (15, 0); (16, 0); (17, 0); (18, 0); (20, 0)]%N /\
+  d_max_id (Outline.base (srun_ops O0 (Outline.fresh_bdoc ex_doc) ex_sops)) = 20%N /\
+  forest_of_program ex_sops <> [].
+Proof.
+  destruct ex_s_hyps as [H1 [H2 [H3 H4]]]. destruct ex_s_run as [H5 [_ [H7 H8]]].
+  exact (conj H1 (conj H2 (conj H3 (conj H4 (conj H5 (conj H7 H8)))))).
+Qed.
+
+(* the same for programs of document-level operations only (replacement, deletion, pruning) *)
+Theorem C11_example_doc_ops :
   doc_wf ex_doc /\ alloc_ok ex_doc /\ prog_dom O0 ex_doc ex_ops /\ no_renumber ex_ops /\
   handed_out O0 ex_doc ex_ops = [(8, 0); (9, 0); (10, 0)]%N /\
   map fst (d_objects (run_ops O0 ex_doc ex_ops)) = [(1, 0); (2, 0); (4, 0); (5, 0); (6, 0)]%N /\
@@ -182,6 +256,10 @@ Qed.
 Print Assumptions C11_alloc_invariant.
 Print Assumptions C11_alloc_fresh.
 Print Assumptions C11_alloc_no_collision.
+Print Assumptions C11_frame_build_outline.
+Print Assumptions C11_outline_after_program.
+Print Assumptions C11_frame_add_bookmark.
+Print Assumptions C11_frame_save.
 Print Assumptions C11_prune.
 Print Assumptions C11_prune_total.
 Print Assumptions C11_frame_new.
@@ -197,3 +275,4 @@ Print Assumptions C11_content_indirect_refuted.
 Print Assumptions C11_add_page_contents_content.
 Print Assumptions C11_content_example_partial.
 Print Assumptions C11_example.
+Print Assumptions C11_example_doc_ops.
